@@ -15,6 +15,11 @@ pub fn hit(name: &'static str) {
     PROBES.with(|p| *p.borrow_mut().entry(name).or_insert(0) += 1);
 }
 
+/// Reads one probe counter of this thread without clearing it.
+pub fn probe(name: &str) -> u64 {
+    PROBES.with(|p| p.borrow().get(name).copied().unwrap_or(0))
+}
+
 /// Takes (and clears) the probe counters of this thread.
 pub fn take_probes() -> BTreeMap<&'static str, u64> {
     PROBES.with(|p| std::mem::take(&mut *p.borrow_mut()))
